@@ -36,6 +36,10 @@ pub struct Model {
     /// paths whose post-crash state the property leaves unspecified (dangling
     /// subtrees); cleared when the path is re-adopted from the implementation
     pub unspecified: BTreeSet<String>,
+    /// names whose durable entry refers to one file while a different file that carried
+    /// the same name had its data synced since: "contents at its last data sync" can be
+    /// read per file or per path, so the content is not asserted after a crash
+    pub ambiguous: BTreeSet<String>,
 }
 
 pub fn parent(p: &str) -> String {
@@ -69,6 +73,7 @@ impl Model {
             dur_files: BTreeMap::new(),
             dur_dirs: dirs,
             unspecified: BTreeSet::new(),
+            ambiguous: BTreeSet::new(),
         }
     }
 
@@ -280,6 +285,11 @@ impl Model {
     /// sync_all / sync_data / fsync of the file at `p`
     pub fn sync_file(&mut self, p: &str) -> Result<(), Errc> {
         let i = self.file_inode(p)?;
+        if let Some(&j) = self.dur_files.get(p) {
+            if j != i {
+                self.ambiguous.insert(p.to_string());
+            }
+        }
         let ino = &mut self.inodes[i];
         ino.dur = Some(ino.vol.clone());
         ino.pending_writes.clear();
@@ -309,14 +319,20 @@ impl Model {
         let gone_dirs: Vec<String> =
             self.dur_dirs.iter().filter(|x| *x != "/" && parent(x) == ds && !self.dirs.contains(*x)).cloned().collect();
         for x in gone_dirs {
-            // the whole durable subtree of a removed directory goes with it
-            self.dur_dirs.retain(|y| !(y == &x || is_under(y, &x)));
-            self.dur_files.retain(|y, _| !is_under(y, &x));
+            // only the entry in `d` goes; durable entries *inside* the removed directory
+            // (whose own removal was never synced through that directory) are left
+            // dangling, which the property declares unspecified
+            self.dur_dirs.remove(&x);
         }
         for (f, i) in self.files.clone() {
             if parent(&f) == ds {
+                self.ambiguous.remove(&f);
                 self.dur_files.insert(f, i);
             }
+        }
+        let amb: Vec<String> = self.ambiguous.iter().filter(|f| parent(f) == ds && !self.dur_files.contains_key(*f)).cloned().collect();
+        for f in amb {
+            self.ambiguous.remove(&f);
         }
         for x in self.dirs.clone() {
             if x != "/" && parent(&x) == ds {
@@ -364,13 +380,12 @@ impl Model {
         // ... and paths whose durable entry refers to an older file while a *different*
         // file created later under the same name has had its data synced: "the contents
         // at its last data sync" can be read per file or per path, so neither is demanded
-        for (p, &i) in &self.dur_files {
-            if let Some(&j) = self.files.get(p) {
-                if j != i && self.inodes[j].dur.is_some() {
-                    self.unspecified.insert(p.clone());
-                }
+        for p in &self.ambiguous {
+            if self.dur_files.contains_key(p) {
+                self.unspecified.insert(p.clone());
             }
         }
+        self.ambiguous.clear();
         for p in self.dur_files.keys().chain(self.dur_dirs.iter()) {
             if p != "/" && !self.ancestors_durable(p) {
                 self.unspecified.insert(p.clone());
